@@ -6,6 +6,9 @@ src = '/tmp/mut/%s' % mid
 pid0 = mid[:3]
 patch = os.path.join(src, 'patch_%s.diff' % mid)
 demo = os.path.join(src, 'demo_%s.py' % mid)
+if '--from-seeded' in sys.argv:          # re-evaluation of a stored change against the current checks
+    src = '/verif/seeded/%s' % mid
+    patch, demo = os.path.join(src, 'patch.diff'), os.path.join(src, 'demo.py')
 wt = '/tmp/mut/eval_%s' % mid
 subprocess.run(['git', '-C', '/repo', 'worktree', 'remove', '--force', wt], stdout=subprocess.DEVNULL, stderr=subprocess.DEVNULL)
 subprocess.run(['git', '-C', '/repo', 'worktree', 'add', '-q', wt, 'HEAD'], check=True)
@@ -44,7 +47,8 @@ subprocess.run(['git', '-C', '/repo', 'worktree', 'remove', '--force', wt])
 subprocess.run(['/venv/bin/python', '/verif/harness/translate_ops.py'], stdout=subprocess.DEVNULL)
 d = '/verif/seeded/%s' % mid
 os.makedirs(d, exist_ok=True)
-shutil.copy(patch, os.path.join(d, 'patch.diff'))
-shutil.copy(demo, os.path.join(d, 'demo.py'))
+if '--from-seeded' not in sys.argv:
+    shutil.copy(patch, os.path.join(d, 'patch.diff'))
+    shutil.copy(demo, os.path.join(d, 'demo.py'))
 json.dump(res, open(os.path.join(d, 'result.json'), 'w'), indent=1)
 print(json.dumps({k: res[k] for k in res if k not in ('checks', 'demo_output_with_change')}, indent=1))
